@@ -6,6 +6,8 @@ of an element actual or in the base of a section; name clashes between caller an
 (also with module-level variables and with local arrays); shifted lower bounds in the callee's
 declarations (`x(0:)`, `x(5:7)`), assumed shape, 2-D arrays, rank-reducing sections `d(i,:)`; call at
 top level, inside a DO loop (executed twice) or inside an IF.
+Strided section actuals (valid Fortran; InlineTrans must refuse every non-unit stride): a(lo:hi:1), :2, :3, :n, :-1, :-n,
+:n+0, :0-n, whole-extent and partial.
 Malformed stream: wrong argument count, rank mismatch, early RETURN, EXIT/CYCLE (CodeBlock),
 strided section, SAVEd local, callee using a module variable.
 Module variables: `g`, `h` and — drawn from the same pool as the locals plus the first fresh-name candidates
@@ -81,11 +83,37 @@ class Gen:
         if c < 0.8:
             lo = r.choice([None, lit(2), lit(3), var("i"), var("n"), add(var("i"), lit(1))])
             hi = r.choice([None, None, lit(8), lit(7)])
+            if r.random() < 0.3:
+                return self.strided_actual()
             return ("sec", "a", [("rng", lo, hi)])
         ie = self.index_expr()
         if r.random() < 0.5:
             return ("sec", "d", [("ix", ie), ("rng", None, None)])
         return ("sec", "d", [("rng", None, None), ("ix", add(var("i"), lit(0)) if r.random() < 0.1 else lit(r.randint(1, 3)))])
+
+    def strided_actual(self):
+        """1-D section of a(1:8) with an explicit stride, at least E elements long on every store (i, n in 1..3):
+        literal 1 (the only one InlineTrans may accept), literal 2 / 3, variable, -1, -variable, expressions;
+        whole-extent and partial sections."""
+        r = self.r
+        kind = r.choice(["one", "one", "two", "three", "var", "neg1", "negvar", "expr", "negexpr"])
+        neg = ("un", "Neg", var("n"))
+        if kind == "one":
+            return ("sec", "a", [("rng", r.choice([None, lit(2), var("i")]), r.choice([None, lit(8), lit(7)]), lit(1))])
+        if kind == "two":
+            return ("sec", "a", [("rng", r.choice([None, lit(1), lit(2), var("i")]), r.choice([None, lit(8)]), lit(2))])
+        if kind == "three":
+            return ("sec", "a", [("rng", r.choice([None, lit(1), lit(2)]), None, lit(3))])
+        if kind == "var":           # n in 1..3: from 1 or 2 there are always >= 3 elements up to 8
+            return ("sec", "a", [("rng", r.choice([None, lit(1), lit(2)]), r.choice([None, lit(8)]), var("n"))])
+        if kind == "neg1":
+            return ("sec", "a", [("rng", r.choice([lit(8), lit(5), lit(6), add(var("i"), lit(4))]), r.choice([lit(1), lit(2)]), lit(-1))])
+        if kind == "negvar":
+            return ("sec", "a", [("rng", lit(8), lit(1), neg)])
+        if kind == "expr":
+            return ("sec", "a", [("rng", r.choice([None, lit(1)]), None, r.choice([add(var("n"), lit(0)), ("bin", "Sub", var("n"), lit(0)),
+                                                                                   ("bin", "Mul", var("n"), lit(1))]))])
+        return ("sec", "a", [("rng", lit(8), lit(1), ("bin", "Sub", lit(0), var("n")))])
 
     # ------------------------------------------------------------------ callee side
     def formal_dims(self, rank):
